@@ -18,6 +18,7 @@ import ConduitModel.Driver.ProcNode
 import ConduitModel.Driver.SrcAck
 import ConduitModel.Driver.Stream
 import ConduitModel.Driver.WorkerStop
+import ConduitModel.Driver.SharedSink
 
 /-
 `driver <component>` : reads cases from stdin (one per line), writes one result line per case.
@@ -66,6 +67,7 @@ def component (name : String) : Option (String → String) :=
   | "workerstop" => some WorkerStopD.workerstopLine
   | "treeshape" => some TreeBuildD.treeshapeLine
   | "appendtoend" => some TreeBuildD.appendtoendLine
+  | "sharedsink" => some SharedSinkD.sharedsinkLine
   | _ => none
 
 partial def loop (h : IO.FS.Stream) (out : IO.FS.Stream) (f : String → String) : IO Unit := do
